@@ -111,6 +111,8 @@ type frame struct {
 	// given: what a child frame received from its parent (run limit plus the
 	// deposits of the items handed over); it never gives back more than that
 	given int64
+	// unpaid: the part of the stack deposits that the failing instruction did not pay
+	unpaid int64
 }
 
 // Machine executes one program; Next delivers the event stream step by step.
@@ -300,7 +302,7 @@ func (m *Machine) leave(f *frame, ok bool) {
 	// the child's unused gas and the deposits of what it leaves behind go back
 	// (calibrated: a child that failed on an end-of-instruction deposit still holds the unpaid item;
 	// the refund is capped by what the child was given, so that no gas is created)
-	refund := f.runLimit + stackDeposit(f.data) + stackDeposit(f.alt)
+	refund := f.runLimit + stackDeposit(f.data) + stackDeposit(f.alt) - f.unpaid
 	if refund > f.given {
 		refund = f.given
 	}
@@ -309,7 +311,9 @@ func (m *Machine) leave(f *frame, ok bool) {
 	d += 8 + int64(len(v))
 	parent.data = append(parent.data, v)
 	parent.dtag = append(parent.dtag, opCHECKPREDICATE)
+	before := parent.runLimit
 	if !m.charge(parent, d) {
+		parent.unpaid = d - before
 		m.note(parent, opCHECKPREDICATE, RunLimit, nil, false)
 		m.FailedInOp, m.FailOp = true, opCHECKPREDICATE
 		m.fail(parent, RunLimit)
